@@ -21,10 +21,18 @@ REFUTED = [
     "(finding grid-subgrid-gap); the same statement is proved for the repaired code as C13_subgrid_minimal_repaired)",
 ]
 PARTIAL = [
-    "C13_subgrid_minimal (pinned tree, Grid2D index part, under the hypothesis that the selected cells' columns and rows are "
-    "contiguous, which holds for axis-aligned grids)",
-    "the Grid2D part covers the index arithmetic only (rotation/dip float arithmetic is exercised by the correspondence on "
-    "0-degree and 3-4-5 rotations, not modelled); block models, octrees, drillholes and groups are not covered",
+    "C13_subgrid_minimal (pinned index computation, under contiguity of the selected columns and rows; the checked tree is "
+    "covered by C13_subgrid_minimal_repaired)",
+    "Grid2D: for unrotated, undipped grids the selection matrix is computed in the model from the cell-centre formula "
+    "(C13_grid_selection_matrix) and the copied values are characterised (C13_grid_copy_values); for rotated / dipped grids "
+    "the selection matrix is an input of the model (recomputed by the driver from the observed centroids): rotation/dip "
+    "arithmetic is exercised at 0 and atan(3/4) degrees, not modelled",
+    "block models, octrees and drillholes: C13_located_mask_exact / C13_located_none_iff hold for any location list; that "
+    "the list is the object's centroids is C17's subject (here: observed and checked against the mid-point formula by the "
+    "oracle); their copy_from_extent (GridObject.copy with a mask) is not modelled",
+    "groups: C13_group_copy characterises Group.copy_from_extent given the children's own results; children are "
+    "Points/Curve/Surface and one level of sub-group in the correspondence",
+    "C13_copy_total excludes objects with per-element text data",
 ]
 TRUSTED = [
     "Coq 8.16.1 kernel + vm_compute (correspondence evaluation); no axioms (Print Assumptions: closed)",
@@ -38,7 +46,8 @@ ASSUMPTIONS = [
     "coordinates, box bounds, grid origins and cell sizes are small integers so that float comparisons are exact",
     "objects are Points, Curve, Surface (data: float/int/bool) and Grid2D with dip = 0 and rotation 0 or atan(3/4) (cell size 5, "
     "so cell centres sit on half-integers and box bounds on integers never touch them), float cell data",
-    "GridObject (block model, octree), Drillhole and Group selection is not covered",
+    "block models (integer delimiters, no rotation), octrees (base cells only) and drillholes (collar) are covered for "
+    "mask_by_extent only; groups hold Points/Curve/Surface children and at most one sub-group",
 ]
 RULE = (
     "Points/Curve/Surface (80%): 1-12 vertices on the lattice [-3,3]^2 x [-1,1], cells with unreferenced vertices (30%) "
@@ -56,6 +65,10 @@ LEVEL_TEXT = (
     "every kept vertex is used by a kept cell). For Grid2D the index arithmetic is modelled: the selected rectangle is the "
     "bounding rectangle of the selected cells for the repaired code (all selections) and, for the pinned tree, when the "
     "selected rows/columns are contiguous; refuted otherwise with a witness replayed on a rotated grid (recorded finding). "
+    "For unrotated grids the selection matrix is the closed-box test of the centre formula and the copied values are the "
+    "source's at selected cells and no-data elsewhere in the sub-grid; any object selected through a location list (block "
+    "model / octree centroids, drillhole collar) selects exactly the locations in the closed box; a group's copy holds exactly "
+    "the children whose own copy is not None. "
     "Tie: in-Coq differential correspondence on generated inputs; the repair flag is read off the source."
 )
 TECHNIQUE = "Coq proof over a hand model + in-Coq differential correspondence"
@@ -324,12 +337,71 @@ def _gen_fmesh_case(rng):
     return {"kind": "fmesh", "cls": cls, "verts": verts, "cells": cells, "kids": kids, "box": box, "inverse": rng.chance(35)}
 
 
+def _gen_located_case(rng):
+    """block model / octree centroids and drillhole collars: objects selected through a list of locations"""
+    what = rng.weighted([("block", 55), ("drill", 30), ("octree", 15)])
+    case = {"kind": "located", "what": what, "inverse": rng.chance(35)}
+    if what == "block":
+        def delims(n, sign=1):
+            out, x = [0], 0
+            for _ in range(n):
+                x += rng.choice([1, 2, 3])
+                out.append(sign * x)
+            return out
+        case.update({"origin": [rng.range(-3, 3), rng.range(-3, 3), rng.range(-2, 2)],
+                     "u": delims(rng.range(1, 3)), "v": delims(rng.range(1, 3)), "z": delims(rng.range(1, 2), -1)})
+        lo = [2 * case["origin"][k] for k in range(3)]
+        hi = [2 * (case["origin"][k] + d[-1]) for k, d in enumerate((case["u"], case["v"], case["z"]))]
+    elif what == "octree":
+        case.update({"origin": [rng.range(-3, 3), rng.range(-3, 3), rng.range(-2, 2)], "n": rng.choice([1, 2, 4]), "size": rng.choice([1, 2])})
+        lo = [2 * x for x in case["origin"]]
+        hi = [2 * (x + case["n"] * case["size"]) for x in case["origin"]]
+    else:
+        case["collar"] = [rng.range(-3, 3), rng.range(-3, 3), rng.range(-2, 2)]
+        lo = [2 * x - 2 for x in case["collar"]]
+        hi = [2 * x + 2 for x in case["collar"]]
+    box = []
+    for k in range(2 if rng.chance(45) else 3):
+        a, b = sorted((lo[k], hi[k]))
+        st = rng.below(100)
+        if st < 35:
+            x, y = sorted((rng.range(a - 2, b + 2), rng.range(a - 2, b + 2)))
+        elif st < 62:
+            mid = (a + b) // 2
+            x, y = rng.range(a - 2, mid), rng.range(mid, b + 2)
+        elif st < 75:
+            x, y = a - 1, b + 1
+        elif st < 88:
+            x = y = rng.range(a, b)
+        else:
+            x, y = b + 1, b + 3
+        box.append([x, y])
+    if what == "drill" and rng.chance(50):
+        box = [[2 * case["collar"][k] - rng.range(0, 2), 2 * case["collar"][k] + rng.range(0, 2)] for k in range(len(box))]
+        case["inverse"] = rng.chance(50)
+    case["box_half"] = box
+    return case
+
+
+def _gen_group_case(rng):
+    def child():
+        c = _gen_mesh_case(rng)
+        return {"cls": c["cls"], "verts": c["verts"], "cells": c["cells"]}
+    kids = [child() for _ in range(rng.range(1, 4))]
+    sub = [child() for _ in range(rng.range(1, 2))] if rng.chance(45) else None
+    allv = [p for c in kids + (sub or []) for p in c["verts"]]
+    box = _gen_box(rng, allv, 2 if rng.chance(45) else 3)
+    box = [[min(lo, hi), max(lo, hi)] for lo, hi in box]   # no inverted boxes: a refusing child would abort the group copy
+    return {"kind": "group", "children": kids, "sub": sub, "sub_at": rng.below(len(kids) + 1), "box": box, "inverse": rng.chance(30)}
+
+
 def generate(rng, tier):
     n = 320 if tier == "quick" else 6000
     out = []
     for _ in range(n):
         r = rng.below(100)
-        out.append(_gen_grid_case(rng) if r < 30 else _gen_fmesh_case(rng) if r < 45 else _gen_mesh_case(rng))
+        out.append(_gen_grid_case(rng) if r < 27 else _gen_fmesh_case(rng) if r < 40 else _gen_located_case(rng) if r < 50
+                   else _gen_group_case(rng) if r < 58 else _gen_mesh_case(rng))
     return out
 
 
@@ -398,6 +470,10 @@ def drive_one(case, work):
     try:
         if case["kind"] == "grid":
             return _drive_grid(case, ws)
+        if case["kind"] == "located":
+            return _drive_located(case, ws)
+        if case["kind"] == "group":
+            return _drive_group(case, ws)
         snap = _snap_raw if case["kind"] == "fmesh" else G._snap
         kw = {"vertices": np.array(case["verts"], dtype=float).reshape(-1, 3), "name": "obj"}
         if case["cls"] != "Points":
@@ -445,6 +521,71 @@ def _snap_raw(obj):
     v = obj.vertices
     s["verts"] = [] if v is None else [[float(x) for x in p] for p in np.asarray(v).tolist()]
     return s
+
+
+def _drive_located(case, ws):
+    import numpy as np
+    from geoh5py.objects import BlockModel, Drillhole, Octree
+
+    w = case["what"]
+    if w == "block":
+        ob = BlockModel.create(ws, origin=[float(x) for x in case["origin"]], u_cell_delimiters=np.array(case["u"], dtype=float),
+                               v_cell_delimiters=np.array(case["v"], dtype=float), z_cell_delimiters=np.array(case["z"], dtype=float), rotation=0.0)
+        locs = np.asarray(ob.centroids)
+    elif w == "octree":
+        n, sz = case["n"], float(case["size"])
+        ob = Octree.create(ws, origin=[float(x) for x in case["origin"]], u_count=n, v_count=n, w_count=n,
+                           u_cell_size=sz, v_cell_size=sz, w_cell_size=sz, rotation=0.0)
+        locs = np.asarray(ob.centroids)
+    else:
+        ob = Drillhole.create(ws, collar=[float(x) for x in case["collar"]])
+        locs = np.array([[ob.collar["x"], ob.collar["y"], ob.collar["z"]]], dtype=float)
+    ext = np.array(case["box_half"], dtype=float).T / 2.0
+    return {"locs2": [[_r2(x) for x in p] for p in locs.tolist()],
+            "mask": _mask_obs(lambda: ob.mask_by_extent(ext, inverse=bool(case["inverse"])))}
+
+
+def _drive_group(case, ws):
+    import numpy as np
+    from geoh5py import objects as O
+    from geoh5py.groups import ContainerGroup
+
+    def make(spec, parent, name):
+        kw = {"vertices": np.array(spec["verts"], dtype=float).reshape(-1, 3), "name": name, "parent": parent}
+        if spec["cls"] != "Points":
+            kw["cells"] = np.array(spec["cells"], dtype="int32")
+        return getattr(O, spec["cls"]).create(ws, **kw)
+
+    grp = ContainerGroup.create(ws, name="grp")
+    order = []
+    for i, spec in enumerate(case["children"]):
+        if case["sub"] is not None and case["sub_at"] == i:
+            order.append("s")
+        order.append(f"c{i}")
+    if case["sub"] is not None and case["sub_at"] == len(case["children"]):
+        order.append("s")
+    for name in order:
+        if name == "s":
+            sub = ContainerGroup.create(ws, name="s", parent=grp)
+            for j, spec in enumerate(case["sub"]):
+                make(spec, sub, f"n{j}")
+        else:
+            make(case["children"][int(name[1:])], grp, name)
+    ext = np.array(case["box"], dtype=float).T
+    src_order = [c.name for c in grp.children]
+    try:
+        cp = grp.copy_from_extent(ext, inverse=bool(case["inverse"]))
+    except Exception as e:  # noqa: BLE001
+        return {"order": src_order, "copy": {"error": type(e).__name__}}
+    if cp is None:
+        return {"order": src_order, "copy": {"none": True}}
+
+    def show(ent):
+        if hasattr(ent, "vertices"):
+            return {"name": ent.name, "snap": G._snap(ent)}
+        return {"name": ent.name, "children": [show(c) for c in ent.children]}
+
+    return {"order": src_order, "copy": {"children": [show(c) for c in cp.children]}}
 
 
 def _r2(x):
@@ -530,7 +671,59 @@ def case_term(case, obs):
         return "false"
 
 
+def _mesh_obj_term(spec):
+    return "{| ok := %s; verts := %s; cells := %s; kids := [] |}" % (
+        OKIND[spec["cls"]], clist(G._pt(p) for p in spec["verts"]), clist(clist(cnat(v) for v in c) for c in spec["cells"]))
+
+
+def _group_term(case, obs):
+    cp = obs["copy"]
+    if "error" in cp:
+        return "false"
+    e, inv = _ext_term(case["box"]), cbool(case["inverse"])
+    order = obs["order"]
+    if sorted(order) != sorted([f"c{i}" for i in range(len(case["children"]))] + (["s"] if case["sub"] is not None else [])):
+        return "false"
+    found = {} if cp.get("none") else {c["name"]: c for c in cp["children"]}
+    if not cp.get("none") and len(found) != len(cp["children"]):
+        return "false"
+    parts, copies = [], []
+    for name in order:
+        if name == "s":
+            subfound = {c["name"]: c for c in found["s"]["children"]} if "s" in found else {}
+            subcopies = []
+            for j, spec in enumerate(case["sub"]):
+                o = _mesh_obj_term(spec)
+                sn = subfound.get(f"n{j}")
+                st = "None" if sn is None else "(Some %s)" % G._snap_term(sn["snap"])
+                parts.append("child_agrees %s %s %s %s" % (o, e, inv, st))
+                subcopies.append("as_unit (child_copy %s %s %s)" % (o, e, inv))
+            idx = [int(c["name"][1:]) for c in found["s"]["children"]] if "s" in found else None
+            parts.append("group_agrees %s %s" % (clist(subcopies), "None" if idx is None else "(Some %s)" % clist(cnat(i) for i in idx)))
+            copies.append("as_unit (group_copy_from_extent %s)" % clist(subcopies))
+        else:
+            o = _mesh_obj_term(case["children"][int(name[1:])])
+            sn = found.get(name)
+            st = "None" if sn is None else "(Some %s)" % G._snap_term(sn["snap"])
+            parts.append("child_agrees %s %s %s %s" % (o, e, inv, st))
+            copies.append("as_unit (child_copy %s %s %s)" % (o, e, inv))
+    idx = None if cp.get("none") else [order.index(c["name"]) for c in cp["children"]]
+    parts.append("group_agrees %s %s" % (clist(copies), "None" if idx is None else "(Some %s)" % clist(cnat(i) for i in idx)))
+    return " && ".join("(%s)" % x for x in parts)
+
+
 def _case_term(case, obs):
+    if case["kind"] == "group":
+        return _group_term(case, obs)
+    if case["kind"] == "located":
+        if any(isinstance(x, dict) for p in obs["locs2"] for x in p):
+            return "false"
+        m = _rmask_term(obs["mask"])
+        if m is None:
+            return "false"
+        locs = clist(G._pt(p) for p in obs["locs2"])
+        fn = "drillhole_mask %s" % G._pt(obs["locs2"][0]) if case["what"] == "drill" else "grid_object_mask %s" % locs
+        return "rmask_eqb (%s %s %s) (%s)" % (fn, _ext_term(case["box_half"]), cbool(case["inverse"]), m)
     if case["kind"] == "fmesh":
         case, obs = _scaled(case, obs)
     if case["kind"] == "grid":
@@ -540,7 +733,13 @@ def _case_term(case, obs):
         if obs["centroids2"] != _centres2(case):
             return "false"
         rows = _sel_rows(case, obs["centroids2"])
-        sel = clist(clist(cbool(b) for b in r) for r in rows)
+        if case.get("rot", "0") == "0":
+            # unrotated grid: the model computes the selection matrix itself from the cell-centre formula
+            ox, oy, oz = case["origin"]
+            sel = "(grid_sel %s (grid_centres2 %s %s %s %s %s %s %s))" % (
+                _ext_term(case["box_half"]), cz(ox), cz(oy), cz(oz), cz(case["du"]), cz(case["dv"]), cnat(case["nu"]), cnat(case["nv"]))
+        else:
+            sel = clist(clist(cbool(b) for b in r) for r in rows)
         cp = obs["copy"]
         if "error" in cp:
             return "false"
@@ -593,7 +792,7 @@ def _case_term(case, obs):
 
 
 def model_term(case):
-    if case["kind"] == "grid":
+    if case["kind"] in ("grid", "located", "group"):
         return None
     if case["kind"] == "fmesh":
         case, _ = _scaled(case)
@@ -625,6 +824,10 @@ def oracle(case, obs):
         return [{"key": "driver-crash", "what": obs["crash"][:300]}]
     if case["kind"] == "grid":
         return _oracle_grid(case, obs)
+    if case["kind"] == "located":
+        return _oracle_located(case, obs)
+    if case["kind"] == "group":
+        return _oracle_group(case, obs)
     if case["kind"] == "fmesh":
         # exact rational comparison: the scaling is fractions.Fraction(x) * (common power-of-two denominator)
         case, obs = _scaled(case, obs)
@@ -699,6 +902,89 @@ def oracle(case, obs):
     return fails[:3]
 
 
+def _oracle_located(case, obs):
+    """block model / octree cell centres and drillhole collars: selected iff inside the closed box"""
+    box, inv = case["box_half"], case["inverse"]
+    locs = obs["locs2"]
+    if any(isinstance(x, dict) for p in locs for x in p):
+        return [{"key": "located-centroids", "what": f"locations are not on the half-integer lattice: {locs}"}]
+    if case["what"] == "block":
+        o = case["origin"]
+        mids = lambda d, k: [2 * o[k] + d[i] + d[i + 1] for i in range(len(d) - 1)]  # noqa: E731
+        want = sorted([x, y, z] for x in mids(case["u"], 0) for y in mids(case["v"], 1) for z in mids(case["z"], 2))
+        if sorted(locs) != want:
+            return [{"key": "located-centroids", "what": f"block model centroids {sorted(locs)} != cell mid-points {want}"}]
+    if case["what"] == "drill" and locs != [[2 * x for x in case["collar"]]]:
+        return [{"key": "located-centroids", "what": f"collar {locs}"}]
+    om = obs["mask"]
+    if "error" in om:
+        return [{"key": "located-mask-raised", "what": f"mask_by_extent raised {om['error']}"}]
+    q = [_inside(p, box) != inv for p in locs]
+    miss = any(max(min(p[k] for p in locs), box[k][0]) > min(max(p[k] for p in locs), box[k][1]) for k in range(len(box)))
+    if om["mask"] is None:
+        if not (miss or not any(q)):
+            return [{"key": "located-none-but-elements-qualify", "what": f"None although locations qualify (box {box})"}]
+    elif om["mask"] != q:
+        return [{"key": "located-mask-not-exact", "what": f"{case['what']}: mask {om['mask']} != expected {q} for locations {locs}, box {box}, inverse {inv}"}]
+    return []
+
+
+def _oracle_group(case, obs):
+    cp = obs["copy"]
+    if "error" in cp:
+        return [{"key": "group-copy-raised", "what": f"Group.copy_from_extent raised {cp['error']}"}]
+
+    def status(spec):
+        """(must be kept, must be dropped) by the text: something qualifies / the box misses the bounding box"""
+        c = {"cls": spec["cls"], "verts": spec["verts"], "cells": spec["cells"], "box": case["box"], "inverse": case["inverse"]}
+        mask, keepc, miss, none_q = _expected(c)
+        return (not miss and not none_q), (miss or (none_q and spec["cls"] != "Points"))
+
+    fails = []
+    found = {} if cp.get("none") else {c["name"]: c for c in cp["children"]}
+
+    def check(name, spec, where):
+        must, mustnot = status(spec)
+        present = name in where
+        if must and not present:
+            fails.append({"key": "group-child-missing", "what": f"child {name} has qualifying elements but is not in the group copy"})
+        if mustnot and present:
+            fails.append({"key": "group-child-extra", "what": f"child {name} has no selection but is in the group copy"})
+        if present:
+            sub = _oracle_mesh_copy(dict(spec, kids=[], box=case["box"], inverse=case["inverse"]), where[name]["snap"])
+            fails.extend(sub)
+
+    for i, spec in enumerate(case["children"]):
+        check(f"c{i}", spec, found)
+    if case["sub"] is not None:
+        subfound = {c["name"]: c for c in found["s"]["children"]} if "s" in found else {}
+        for j, spec in enumerate(case["sub"]):
+            check(f"n{j}", spec, subfound)
+        if "s" in found and not found["s"]["children"]:
+            fails.append({"key": "group-empty-subgroup", "what": "an empty sub-group was copied"})
+    if not cp.get("none") and not cp["children"]:
+        fails.append({"key": "group-empty-copy", "what": "an empty group copy was returned"})
+    if not cp.get("none"):
+        kept = [c["name"] for c in cp["children"]]
+        if kept != [n for n in obs["order"] if n in kept]:
+            fails.append({"key": "group-child-order", "what": f"children of the copy {kept} are not in the source's order {obs['order']}"})
+    return fails[:3]
+
+
+def _oracle_mesh_copy(case, snap):
+    """geometry of one copied child against the text (vertices kept, cells re-indexed on the same coordinates)"""
+    mask, keepc, _, _ = _expected(case)
+    ev = [list(case["verts"][i]) for i, b in enumerate(mask) if b]
+    if snap["verts"] != ev:
+        return [{"key": "copy-vertices", "what": f"copy vertices {snap['verts']} != expected {ev}"}]
+    if case["cls"] != "Points":
+        got = [[tuple(snap["verts"][v]) if 0 <= v < len(snap["verts"]) else None for v in c] for c in snap["cells"]]
+        want = [[tuple(case["verts"][v]) for v in c] for c, b in zip(case["cells"], keepc) if b]
+        if got != want:
+            return [{"key": "copy-cells", "what": f"copy cells join {got}, expected {want}"}]
+    return []
+
+
 def _oracle_grid(case, obs):
     fails = []
     cp = obs.get("copy", {})
@@ -738,6 +1024,12 @@ def _oracle_grid(case, obs):
 
 # ----------------------------------------------------------------------------- evidence helpers
 def nontrivial(case, obs):
+    if case["kind"] == "located":
+        m = obs.get("mask", {}).get("mask")
+        return bool(m) and any(m) and (not all(m) or len(m) == 1)
+    if case["kind"] == "group":
+        cp = obs.get("copy", {})
+        return "children" in cp and 0 < len(cp["children"]) < len(obs.get("order", []))
     if case["kind"] == "fmesh":
         m = obs.get("mask", {}).get("mask")
         return bool(m) and any(m) and not all(m)
@@ -752,6 +1044,18 @@ def histogram(cases, obs):
     h = {"kind": {}, "cls": {}, "ndim": {}, "inverse": 0, "result": {}, "on_boundary": 0, "degenerate_box": 0, "inverted_box": 0}
     for c, o in zip(cases, obs):
         h["kind"][c["kind"]] = h["kind"].get(c["kind"], 0) + 1
+        if c["kind"] == "located":
+            h.setdefault("located", {})
+            m = o.get("mask", {})
+            r = c["what"] + ":" + ("error" if "error" in m else "none" if m.get("mask") is None else "all" if all(m["mask"]) else "empty" if not any(m["mask"]) else "some")
+            h["located"][r] = h["located"].get(r, 0) + 1
+            continue
+        if c["kind"] == "group":
+            h.setdefault("group", {})
+            cp = o.get("copy", {})
+            r = "none" if cp.get("none") else "error" if "error" in cp else f"{len(cp['children'])}of{len(o['order'])}"
+            h["group"][r] = h["group"].get(r, 0) + 1
+            continue
         if c["kind"] == "fmesh":
             if any(isinstance(x, str) for b in c["box"] for x in b):
                 h["half_infinite_box"] = h.get("half_infinite_box", 0) + 1
